@@ -411,6 +411,30 @@ PROPERTIES["C23"] = dict(
     smt=dict(module="props_c23", K=6, N=24, timeout_ms=600000),
 )
 
+# --------------------------------------------------------------------------- C01
+PROPERTIES["C01"] = dict(
+    title="Tamper evidence: signed asset content cannot change without detection",
+    level="model_checking",
+    engine="smt",
+    technique="symbolic execution of the Rust source (syn AST -> bit-vector SMT) of DataHash generation/verification, vec_compare and the range-hashing routine with the digest replaced by a recorder of its input (ideal-hash assumption), decided by z3; native replay with real SHA-256",
+    level_text=("Bounded symbolic checking of the data-hash binding SOURCE: a DataHash is generated over original data d0 and verified against "
+                "received data d1 (both symbolic byte strings of independent length), with symbolic exclusion ranges and internal chunk size.  "
+                "z3 decides for ALL of them that verification succeeds IF AND ONLY IF the non-excluded bytes of d1 equal those of d0: every "
+                "change, insertion or truncation of bound content is reported as a hash mismatch, changes inside exclusions are tolerated; "
+                "vec_compare is byte-string equality (no prefix/length confusion); a remote hash is never reported verified."),
+    level_note=("Kernel level, under the IDEAL-HASH assumption: the digest object is a recorder of the bytes fed to it (SHA-2 itself is not "
+                "encodable), so 'equal digests' means 'equal digest inputs'.  Data up to 4 (quick) / 5 (thorough) bytes, 0..1 (2 in thorough) "
+                "exclusion ranges, both branches of the hashing routine in thorough.  The claim signature, the binding of the assertion into the "
+                "claim (hashed URIs), BMFF/box hashes (C12, C17 cover their kernels) and the per-format handlers are outside."),
+    scope="sdk/src/assertions/data_hash.rs DataHash::gen_hash_from_stream_with_progress, verify_stream_hash_with_progress, is_remote_hash; sdk/src/utils/hash_utils.rs vec_compare, hash_stream_by_alg_with_progress(_impl)",
+    outside=["COSE signature and claim verification (crypto)", "assertion hashed-URI binding inside the claim (CBOR)", "BmffHash / BoxHash verification paths",
+             "collisions of the real hash functions (ideal-hash assumption)", "data longer than the tier bound"],
+    assumptions=["z3 is sound for QF_BV", "the symbolic interpreter (symex.py) is faithful for the constructs it accepts (fails closed otherwise)",
+                 "ideal hash: the digest is a recorder of its input; models of C13 (in-memory stream, RangeSet by specification, worker thread at spawn)"],
+    harnesses=[],
+    smt=dict(module="props_c01", K=6, N=24, timeout_ms=900000),
+)
+
 # --------------------------------------------------------------------------- C07 / C08 / C09 (PNG read/write kernel)
 _PNG_SCOPE = ("sdk/src/asset_handlers/png_io.rs <PngIO as CAIWriter>::write_cai, ::remove_cai_store_from_stream, ::get_object_locations_from_stream, "
               "<PngIO as CAIReader>::read_cai, get_cai_data, get_png_chunk_positions, PngChunkPos::end; sdk/src/utils/io_utils.rs patch_stream, stream_len, "
